@@ -362,6 +362,61 @@ impl Exec {
     }
   }
 
+  /// Run `ord <args>` in-process; stdout of the command is captured.
+  pub fn cli(&self, args: &[String]) -> Result<String, String> {
+    use std::io::Write;
+    let dir = scratch_dir();
+    std::fs::create_dir_all(&dir).ok();
+    let path = dir.join("stdout.txt");
+    let file = std::fs::File::create(&path).map_err(|e| e.to_string())?;
+    std::io::stdout().flush().ok();
+    // SAFETY: plain fd juggling in a single-purpose child process
+    let saved = unsafe { libc::dup(1) };
+    unsafe { libc::dup2(std::os::fd::AsRawFd::as_raw_fd(&file), 1) };
+    let result = catch_unwind(AssertUnwindSafe(|| ord::verif::run_cli(args)));
+    std::io::stdout().flush().ok();
+    unsafe {
+      libc::dup2(saved, 1);
+      libc::close(saved);
+    }
+    drop(file);
+    let out = std::fs::read_to_string(&path).unwrap_or_default();
+    match result {
+      Ok(Ok(())) => Ok(out),
+      Ok(Err(e)) => Err(e),
+      Err(_) => Err(format!("panic: {:?}", take_panics())),
+    }
+  }
+
+  pub fn base_args(&self) -> Vec<String> {
+    let c = &self.config;
+    let dir = scratch_dir();
+    let mut args: Vec<String> = vec![
+      "ord".into(),
+      c.chain.flag().into(),
+      "--bitcoin-rpc-url".into(),
+      "sim.invalid:1".into(),
+      "--bitcoin-rpc-username".into(),
+      "sim".into(),
+      "--bitcoin-rpc-password".into(),
+      "sim".into(),
+      "--bitcoin-data-dir".into(),
+      dir.join("bitcoin").display().to_string(),
+      "--data-dir".into(),
+      dir.display().to_string(),
+    ];
+    if c.index_sats {
+      args.push("--index-sats".into());
+    }
+    if c.index_runes {
+      args.push("--index-runes".into());
+    }
+    if c.index_addresses {
+      args.push("--index-addresses".into());
+    }
+    args
+  }
+
   pub fn index(&self) -> &Index {
     self.index.as_ref().expect("index open")
   }
